@@ -16,8 +16,6 @@ func Operate3[A any, B any, C any, R any](ac <-chan A, bc <-chan B, cc <-chan C,
 	rc := make(chan R)
 
 	go func() {
-		defer close(rc)
-
 		for {
 			an, ok := <-ac
 			if !ok {
@@ -37,8 +35,13 @@ func Operate3[A any, B any, C any, R any](ac <-chan A, bc <-chan B, cc <-chan C,
 			rc <- o(an, bn, cn)
 		}
 
-		Drain(ac)
-		Drain(bc)
+		// The result ends with the shortest input. Close it before consuming what is
+		// left of the longer ones, and drain the inputs independently of each other,
+		// so that neither the consumer nor the other producers have to wait for it.
+		close(rc)
+
+		go Drain(ac)
+		go Drain(bc)
 		Drain(cc)
 	}()
 
